@@ -19,11 +19,11 @@ ASSUMPTIONS = ['reference operations in vf/shadow.py (textbook de Bruijn) are th
                'id recycling is probabilistic: evidence counter churn_comparisons says how many were tried']
 REQUIRED = {'quick': {'eq_checks': 5000, 'hash_checks': 2000, 'op:subst': 500, 'op:subst_type': 500, 'op:subst_bound': 500,
                       'op:beta_norm': 500, 'op:abstract_over': 500, 'op:incr_boundvars': 300, 'sem_checks': 300,
-                      'churn_comparisons': 100000, 'order_triples': 1000, 'type_ops': 1000},
+                      'churn_comparisons': 100000, 'order_triples': 1000, 'type_ops': 1000, 'shared_open_object_two_depths': 120},
             'thorough': {'eq_checks': 100000, 'hash_checks': 40000, 'op:subst': 10000, 'op:subst_type': 10000,
                          'op:subst_bound': 10000, 'op:beta_norm': 10000, 'op:abstract_over': 10000,
                          'op:incr_boundvars': 6000, 'sem_checks': 6000, 'churn_comparisons': 3000000,
-                         'order_triples': 20000, 'type_ops': 20000}}
+                         'order_triples': 20000, 'type_ops': 20000, 'shared_open_object_two_depths': 6000}}
 
 
 def shards(tier, seed):
@@ -266,6 +266,36 @@ def one_round(ctx, rng):
     except Exception as e:
         ctx.count('op_raised:subst_bound:' + type(e).__name__)
     ctx.case(('subst_bound', S.alpha(lam), S.alpha(arg)), nontrivial=nontrivial(lam, arg))
+    # ---- B3b. ONE open sub-object placed at two different binder depths (exercises the (object, depth) memo key)
+    try:
+        from kernel.term import Abs as RAbs, Comb as RComb
+        A2 = g.rand_type()
+        open_s = g.gen(S.BOOL, rng.choice([1, 2]), (A,))          # refers to Bound 0 :: A
+        if S.occurs_bound(open_s, 0) and open_s[0] in ('comb', 'abs'):
+            open_t = S.to_repo_term(open_s, {})
+            conn = ('const', rng.choice(['conj', 'disj', 'implies']), S.funs(S.BOOL, S.BOOL, S.BOOL))
+            allc = ('const', 'all', S.fun(S.fun(A, S.BOOL), S.BOOL))
+            # body = conn open (all (%y::A. open))   - inside the inner binder Bound 0 is y, outside it is x
+            inner_s = ('comb', allc, ('abs', 'y', A, open_s))
+            order = rng.random() < 0.5
+            body_s = S.mk_comb(conn, open_s, inner_s) if order else S.mk_comb(conn, inner_s, open_s)
+            inner_t = RComb(S.to_repo_term(allc), RAbs('y', S.to_repo_type(A), open_t))
+            body_t = S.to_repo_term(conn)(open_t, inner_t) if order else S.to_repo_term(conn)(inner_t, open_t)
+            lam2_s = ('abs', 'x', A, body_s)
+            lam2_t = RAbs('x', S.to_repo_type(A), body_t)
+            arg2 = g.gen(A, rng.choice([0, 1]))
+            r = lam2_t.subst_bound(S.to_repo_term(arg2))
+            compare_result(ctx, 'subst_bound', r, S.inst_bound(body_s, arg2), S.BOOL if closed_typed(arg2) else None,
+                           {'op': 'subst_bound', 'abs': S.jsonable(lam2_s), 'arg': S.jsonable(arg2), 'shared': 'open-object-at-two-depths',
+                            'order': order}, rng)
+            ctx.count('shared_open_object_two_depths')
+            r3 = RComb(lam2_t, S.to_repo_term(arg2)).beta_norm()
+            compare_result(ctx, 'beta_norm', r3, S.beta_norm(('comb', lam2_s, arg2)), None,
+                           {'op': 'beta_norm-shared', 'abs': S.jsonable(lam2_s), 'arg': S.jsonable(arg2)}, rng)
+    except S.ShadowError:
+        pass
+    except Exception as e:
+        ctx.count('op_raised:subst_bound_shared:' + type(e).__name__)
     # ---- B4. beta_norm (redex-rich term)
     gb = mk_gen(rng)
     gb.p_redex = 0.5
